@@ -37,12 +37,33 @@ Model/Ops.vos Model/Ops.vok Model/Ops.required_vos: Model/Ops.v Base/Result.vos 
 Model/EqHash.vo Model/EqHash.glob Model/EqHash.v.beautified Model/EqHash.required_vo: Model/EqHash.v Base/Result.vo Base/Str.vo Base/AstOp.vo Model/Ast.vo Model/FM.vo Model/Queries.vo
 Model/EqHash.vio: Model/EqHash.v Base/Result.vio Base/Str.vio Base/AstOp.vio Model/Ast.vio Model/FM.vio Model/Queries.vio
 Model/EqHash.vos Model/EqHash.vok Model/EqHash.required_vos: Model/EqHash.v Base/Result.vos Base/Str.vos Base/AstOp.vos Model/Ast.vos Model/FM.vos Model/Queries.vos
-Extract/Codec.vo Extract/Codec.glob Extract/Codec.v.beautified Extract/Codec.required_vo: Extract/Codec.v Base/Result.vo Base/Str.vo Base/Sexp.vo Base/AstOp.vo Model/Ast.vo Model/FM.vo
-Extract/Codec.vio: Extract/Codec.v Base/Result.vio Base/Str.vio Base/Sexp.vio Base/AstOp.vio Model/Ast.vio Model/FM.vio
-Extract/Codec.vos Extract/Codec.vok Extract/Codec.required_vos: Extract/Codec.v Base/Result.vos Base/Str.vos Base/Sexp.vos Base/AstOp.vos Model/Ast.vos Model/FM.vos
-Extract/Driver.vo Extract/Driver.glob Extract/Driver.v.beautified Extract/Driver.required_vo: Extract/Driver.v Base/Result.vo Base/Str.vo Base/Sexp.vo Base/AstOp.vo Model/Ast.vo Model/FM.vo Model/Ctc.vo Model/Queries.vo Model/Sem.vo Model/Ops.vo Model/EqHash.vo Extract/Codec.vo
-Extract/Driver.vio: Extract/Driver.v Base/Result.vio Base/Str.vio Base/Sexp.vio Base/AstOp.vio Model/Ast.vio Model/FM.vio Model/Ctc.vio Model/Queries.vio Model/Sem.vio Model/Ops.vio Model/EqHash.vio Extract/Codec.vio
-Extract/Driver.vos Extract/Driver.vok Extract/Driver.required_vos: Extract/Driver.v Base/Result.vos Base/Str.vos Base/Sexp.vos Base/AstOp.vos Model/Ast.vos Model/FM.vos Model/Ctc.vos Model/Queries.vos Model/Sem.vos Model/Ops.vos Model/EqHash.vos Extract/Codec.vos
+Model/PFM.vo Model/PFM.glob Model/PFM.v.beautified Model/PFM.required_vo: Model/PFM.v Base/Result.vo Base/Str.vo Base/AstOp.vo Model/Ast.vo Model/FM.vo
+Model/PFM.vio: Model/PFM.v Base/Result.vio Base/Str.vio Base/AstOp.vio Model/Ast.vio Model/FM.vio
+Model/PFM.vos Model/PFM.vok Model/PFM.required_vos: Model/PFM.v Base/Result.vos Base/Str.vos Base/AstOp.vos Model/Ast.vos Model/FM.vos
+Gen/Tables_json.vo Gen/Tables_json.glob Gen/Tables_json.v.beautified Gen/Tables_json.required_vo: Gen/Tables_json.v Base/AstOp.vo
+Gen/Tables_json.vio: Gen/Tables_json.v Base/AstOp.vio
+Gen/Tables_json.vos Gen/Tables_json.vok Gen/Tables_json.required_vos: Gen/Tables_json.v Base/AstOp.vos
+Gen/Tables_glencoe.vo Gen/Tables_glencoe.glob Gen/Tables_glencoe.v.beautified Gen/Tables_glencoe.required_vo: Gen/Tables_glencoe.v Base/AstOp.vo
+Gen/Tables_glencoe.vio: Gen/Tables_glencoe.v Base/AstOp.vio
+Gen/Tables_glencoe.vos Gen/Tables_glencoe.vok Gen/Tables_glencoe.required_vos: Gen/Tables_glencoe.v Base/AstOp.vos
+Gen/Tables_fide.vo Gen/Tables_fide.glob Gen/Tables_fide.v.beautified Gen/Tables_fide.required_vo: Gen/Tables_fide.v Base/AstOp.vo
+Gen/Tables_fide.vio: Gen/Tables_fide.v Base/AstOp.vio
+Gen/Tables_fide.vos Gen/Tables_fide.vok Gen/Tables_fide.required_vos: Gen/Tables_fide.v Base/AstOp.vos
+Format/Json.vo Format/Json.glob Format/Json.v.beautified Format/Json.required_vo: Format/Json.v Base/Result.vo Base/Str.vo Base/AstOp.vo Model/Ast.vo Model/FM.vo Model/PFM.vo Model/Queries.vo Gen/Tables_json.vo
+Format/Json.vio: Format/Json.v Base/Result.vio Base/Str.vio Base/AstOp.vio Model/Ast.vio Model/FM.vio Model/PFM.vio Model/Queries.vio Gen/Tables_json.vio
+Format/Json.vos Format/Json.vok Format/Json.required_vos: Format/Json.v Base/Result.vos Base/Str.vos Base/AstOp.vos Model/Ast.vos Model/FM.vos Model/PFM.vos Model/Queries.vos Gen/Tables_json.vos
+Format/Glencoe.vo Format/Glencoe.glob Format/Glencoe.v.beautified Format/Glencoe.required_vo: Format/Glencoe.v Base/Result.vo Base/Str.vo Base/AstOp.vo Model/Ast.vo Model/FM.vo Model/PFM.vo Model/Queries.vo Model/EqHash.vo Format/Json.vo Gen/Tables_glencoe.vo
+Format/Glencoe.vio: Format/Glencoe.v Base/Result.vio Base/Str.vio Base/AstOp.vio Model/Ast.vio Model/FM.vio Model/PFM.vio Model/Queries.vio Model/EqHash.vio Format/Json.vio Gen/Tables_glencoe.vio
+Format/Glencoe.vos Format/Glencoe.vok Format/Glencoe.required_vos: Format/Glencoe.v Base/Result.vos Base/Str.vos Base/AstOp.vos Model/Ast.vos Model/FM.vos Model/PFM.vos Model/Queries.vos Model/EqHash.vos Format/Json.vos Gen/Tables_glencoe.vos
+Format/Xml.vo Format/Xml.glob Format/Xml.v.beautified Format/Xml.required_vo: Format/Xml.v Base/Result.vo Base/Str.vo Base/AstOp.vo Model/Ast.vo Model/FM.vo Model/PFM.vo Model/Queries.vo Format/Json.vo Gen/Tables_fide.vo
+Format/Xml.vio: Format/Xml.v Base/Result.vio Base/Str.vio Base/AstOp.vio Model/Ast.vio Model/FM.vio Model/PFM.vio Model/Queries.vio Format/Json.vio Gen/Tables_fide.vio
+Format/Xml.vos Format/Xml.vok Format/Xml.required_vos: Format/Xml.v Base/Result.vos Base/Str.vos Base/AstOp.vos Model/Ast.vos Model/FM.vos Model/PFM.vos Model/Queries.vos Format/Json.vos Gen/Tables_fide.vos
+Extract/Codec.vo Extract/Codec.glob Extract/Codec.v.beautified Extract/Codec.required_vo: Extract/Codec.v Base/Result.vo Base/Str.vo Base/Sexp.vo Base/AstOp.vo Model/Ast.vo Model/FM.vo Model/PFM.vo Format/Xml.vo
+Extract/Codec.vio: Extract/Codec.v Base/Result.vio Base/Str.vio Base/Sexp.vio Base/AstOp.vio Model/Ast.vio Model/FM.vio Model/PFM.vio Format/Xml.vio
+Extract/Codec.vos Extract/Codec.vok Extract/Codec.required_vos: Extract/Codec.v Base/Result.vos Base/Str.vos Base/Sexp.vos Base/AstOp.vos Model/Ast.vos Model/FM.vos Model/PFM.vos Format/Xml.vos
+Extract/Driver.vo Extract/Driver.glob Extract/Driver.v.beautified Extract/Driver.required_vo: Extract/Driver.v Base/Result.vo Base/Str.vo Base/Sexp.vo Base/AstOp.vo Model/Ast.vo Model/FM.vo Model/Ctc.vo Model/Queries.vo Model/Sem.vo Model/Ops.vo Model/EqHash.vo Model/PFM.vo Format/Json.vo Format/Glencoe.vo Format/Xml.vo Extract/Codec.vo
+Extract/Driver.vio: Extract/Driver.v Base/Result.vio Base/Str.vio Base/Sexp.vio Base/AstOp.vio Model/Ast.vio Model/FM.vio Model/Ctc.vio Model/Queries.vio Model/Sem.vio Model/Ops.vio Model/EqHash.vio Model/PFM.vio Format/Json.vio Format/Glencoe.vio Format/Xml.vio Extract/Codec.vio
+Extract/Driver.vos Extract/Driver.vok Extract/Driver.required_vos: Extract/Driver.v Base/Result.vos Base/Str.vos Base/Sexp.vos Base/AstOp.vos Model/Ast.vos Model/FM.vos Model/Ctc.vos Model/Queries.vos Model/Sem.vos Model/Ops.vos Model/EqHash.vos Model/PFM.vos Format/Json.vos Format/Glencoe.vos Format/Xml.vos Extract/Codec.vos
 Extract/Extract.vo Extract/Extract.glob Extract/Extract.v.beautified Extract/Extract.required_vo: Extract/Extract.v Base/Sexp.vo Extract/Driver.vo
 Extract/Extract.vio: Extract/Extract.v Base/Sexp.vio Extract/Driver.vio
 Extract/Extract.vos Extract/Extract.vok Extract/Extract.required_vos: Extract/Extract.v Base/Sexp.vos Extract/Driver.vos
